@@ -39,7 +39,15 @@ def programs(tier, rnd: random.Random):
     if tier == "quick":
         head = [p for i, p in enumerate(progs[:len(SUBS) * (2 * len(T) + 2)]) if i % 4 == rnd.randrange(4)]
         progs = head + progs[len(SUBS) * (2 * len(T) + 2):]
-    return progs
+    # the argument is an explicit cast (same width / wider / narrower, same or other signedness) of a register or a local
+    castargs = []
+    for f in SUBS:
+        for ta in T:
+            castargs += [f"{{ RddV = {f}(({ta}) RsV); }}", f"{{ uint32_t v = RsV; RddV = {f}(({ta}) v); }}", f"{{ RddV = {f}(({ta}) RssV); }}",
+                         f"{{ int16_t h = RsV; RddV = {f}(({ta}) h) + h; }}"]
+    if tier == "quick":
+        castargs = rnd.sample(castargs, 70)
+    return progs + castargs
 
 
 def callee_tmps(sig) -> dict:
